@@ -1,13 +1,14 @@
 #!/bin/bash
-# Must-fail corpus: every patch under /verif/mutants/<prop>/ must make the property's check exit 1.
+# Must-fail corpus: every patch under /verif/mutants/<prop>/ (and every seeded change under
+# /verif/seeded/<prop>-<k>/) must make the property's check exit 1 with a VIOLATION line.
 # usage: selftest.sh [prop ...]
 cd /verif
 props=${@:-$(ls mutants)}
-fail=0
-run() { p=$1; f=$2; out=$(tools/mutant.sh "$f" "$p" -no-evidence 2>&1); rc=$?; 
-  if [ $rc -eq 1 ] && echo "$out" | grep -q "^VIOLATION property=$p"; then echo "caught   $p $(basename $f .patch): $(echo "$out" | grep -m1 '^\(failed\|unknown\|vacuous\)' | awk '{print $1,$2}')"; 
-  else echo "MISSED   $p $(basename $f .patch) (rc=$rc)"; echo "$out" | tail -3; return 1; fi; }
+run() { p=$1; f=$2; out=$(tools/mutant.sh "$f" "$p" -no-evidence 2>&1); rc=$?;
+  n=$(echo "$out" | grep -c "^VIOLATION property=$p"); c=$(echo "$out" | grep "^VIOLATION property=$p" | grep -vc "no-failing-input-found");
+  if [ $rc -eq 1 ] && [ $n -gt 0 ]; then echo "caught   $p $(basename $(dirname $f))/$(basename $f .patch) violations=$n replayed=$c first: $(echo "$out" | grep -m1 '^\(failed\|unknown\|vacuous\)' | awk '{print $1,$2}')";
+  else echo "MISSED   $p $f (rc=$rc)"; echo "$out" | tail -3; fi; }
 export -f run
-for p in $props; do for f in mutants/$p/*.patch; do echo "$p $f"; done; done | xargs -P 6 -L 1 bash -c 'run $0 $1' | sort | tee /tmp/selftest.out
+{ for p in $props; do for f in mutants/$p/*.patch; do [ -f "$f" ] && echo "$p $f"; done; for d in seeded/$p-*; do [ -d "$d" ] || continue; f=$d/patch.diff; [ -f $d/patch_adapted.diff ] && f=$d/patch_adapted.diff; echo "$p $f"; done; done; } | xargs -P 6 -L 1 bash -c 'run $0 $1' | sort | tee /tmp/selftest.out
 if grep -q "^MISSED" /tmp/selftest.out; then exit 1; fi
 exit 0
